@@ -26,6 +26,11 @@ GS = "vault::queries::get_share::get_share"
 
 def run(ctx):
     model = ctx.model()
+    # the withdraw hook only honours the LP token itself (else a foreign cw20 could burn the locked minimum stake)
+    from .C16 import check_hook_authorisation
+    from .poolvalue import check_direct_withdraw
+    check_direct_withdraw(ctx, model, "C05-V4", "vault::contract::execute", r"^vault::execute::receive::withdraw::withdraw$", "vault::state::CONFIG", ("lp_asset", "#NativeToken", "denom"))
+    check_hook_authorisation(ctx, model, rule="C05-V4", only={"vault"})
     for p in (DEP, WD, GS):
         v = ctx.view(p, "C05-V1")
         if v is None:
@@ -112,4 +117,10 @@ def run(ctx):
     check_v4_min_liquidity(ctx, model, DEP, "C05-V4")
     check_no_lp_outflow(ctx, model, "vault", "C05-V4", "lp_asset")
     check_v5_rounding(ctx, model, [DEP, WD, GS], "C05-V5")
-    check_deposit(ctx, model)
+    # V6: the loan counter protocol that keeps deposits out while a loan is outstanding (decided by C06-X4's rules,
+    # filed here because a deposit priced against the lent-out balance dilutes the share price)
+    from .C06 import check_flash_loan, check_after_trade
+    px = ctx.renamed({"C06-X4": "C05-V6"})
+    check_deposit(px, model)
+    check_flash_loan(px, model)
+    check_after_trade(px, model)
